@@ -4,11 +4,14 @@ model:        specs/Strategy.tla (deficit abstraction, verdict for every n), spe
 code -> spec: pick sequences of the real ABTest validated by specs/TraceStrategy.tla (bound after every prefix)
 spec -> code: every behaviour of Latest.tla up to Depth replayed on the real Latest/Explicit over a posix registry
 """
+import concurrent.futures
 import fractions
 import itertools
 import json
+import multiprocessing
 import os
 import random
+import shutil
 import tempfile
 import threading
 
@@ -189,16 +192,65 @@ class VirtualTime:
             return self.cond.wait_for(lambda: self.parked.get(thread.ident, 0) > before, timeout=10)
 
 
-def latest_replays(chk):
+def _latest_job(job):
+    """One exported history on a real posix registry with the real Latest / Explicit (runs in a forked worker)."""
     from forml import application
-    from forml.application import _strategy
     from forml.io import asset
-    vt = VirtualTime()
-    _strategy.time = vt  # harness process only
+    configured, hist = job
+    vt = _VT
+    root = tempfile.mkdtemp(prefix='reg-', dir=os.getcwd())
+    reg = regfix.directory(root)
+    latest = application.Latest('prj', str(configured) if configured else None, refresh=1)
+    explicit = None
+    log, drift, fail = [], 0, None
+    for step, ev in enumerate(hist):
+        if ev['op'] == 'publish':
+            regfix.publish(root, 'prj', ev['r'])
+        elif ev['op'] == 'commit':
+            gens = [int(p) for p in os.listdir(os.path.join(root, 'prj', str(ev['r']))) if p.isdigit()]
+            regfix.commit(root, 'prj', ev['r'], max(gens, default=0) + 1)
+        elif ev['op'] == 'tick':
+            if not vt.tick(latest._refresher):
+                fail = ('Latest: refresher thread did not complete a pass (died or never started)',
+                        {'kind': 'latest', 'configured': configured, 'hist': hist, 'step': step})
+                break
+        else:
+            try:
+                got = latest.select(reg, None, None)
+                obs = next(([r, g] for r in (1, 2, 3) for g in (1, 2)
+                            if _exists(root, r, g) and got == asset.Instance('prj', str(r), g, reg)), [0, 0])
+            except Exception as exc:  # pylint: disable=broad-except
+                obs = ['error', type(exc).__name__]
+            log.append(obs)
+            if obs not in ev['allowed']:
+                fail = (f'Latest(release={configured or None}) answered {obs} but only {ev["allowed"]} were the '
+                        f'newest generation since the last refresh', {'kind': 'latest', 'configured': configured,
+                                                                       'hist': hist, 'step': step})
+                break
+            if obs != ev['res']:
+                drift += 1
+            # Explicit: constant whatever happens to the registry afterwards
+            if explicit is None:
+                explicit = (application.Explicit('prj', str(obs[0]), obs[1]), asset.Instance('prj', str(obs[0]), obs[1], reg))
+            if explicit[0].select(reg, None, None) != explicit[1]:
+                fail = ('Explicit strategy returned another instance than configured',
+                        {'kind': 'explicit', 'hist': hist, 'step': step})
+                break
+    shutil.rmtree(root, ignore_errors=True)
+    return fail, drift, log
+
+
+_VT = None
+
+
+def latest_replays(chk):
+    global _VT
+    from forml.application import _strategy
+    _VT = vt = VirtualTime()
+    _strategy.time = vt  # harness process (and its forked workers) only
     tmp = os.getcwd()
-    depth = 6 if chk.quick else 8
-    total = 0
-    for configured, nr, depth in ([(0, 3, 6), (1, 3, 6), (2, 3, 6), (0, 2, 7)] if chk.quick else [(0, 3, 8), (1, 3, 8), (2, 3, 8)]):
+    jobs = []
+    for configured, nr, depth in ([(0, 3, 6), (1, 3, 6), (2, 3, 6), (0, 2, 7)] if chk.quick else [(0, 3, 8), (1, 3, 7), (2, 3, 7), (0, 2, 9)]):
         cfg = os.path.join(tmp, f'latest{configured}-{nr}.cfg')
         with open(cfg, 'w') as fh:
             fh.write(f'SPECIFICATION Spec\nCONSTANTS NR = {nr}\n MaxGen = 2\n Configured = {configured}\n Depth = {depth}\n'
@@ -208,54 +260,23 @@ def latest_replays(chk):
         behaviours = res.json_prints()
         if not behaviours:
             raise tlc.MachineryError('Latest.tla exported no behaviour')
-        for n, hist in enumerate(behaviours):
-            total += 1
-            root = tempfile.mkdtemp(prefix='reg-', dir=tmp)
-            reg = regfix.directory(root)
-            latest = application.Latest('prj', str(configured) if configured else None, refresh=1)
-            explicit = None
-            log = []
-            for step, ev in enumerate(hist):
-                if ev['op'] == 'publish':
-                    regfix.publish(root, 'prj', ev['r'])
-                elif ev['op'] == 'commit':
-                    gens = [int(p) for p in os.listdir(os.path.join(root, 'prj', str(ev['r']))) if p.isdigit()]
-                    regfix.commit(root, 'prj', ev['r'], max(gens, default=0) + 1)
-                elif ev['op'] == 'tick':
-                    if not vt.tick(latest._refresher):
-                        chk.fail('Latest: refresher thread did not complete a pass (died or never started)',
-                                 {'kind': 'latest', 'configured': configured, 'hist': hist, 'step': step})
-                        break
-                else:
-                    try:
-                        got = latest.select(reg, None, None)
-                        obs = next(([r, g] for r in (1, 2, 3) for g in (1, 2)
-                                    if _exists(root, r, g) and got == asset.Instance('prj', str(r), g, reg)), [0, 0])
-                    except Exception as exc:  # pylint: disable=broad-except
-                        obs = ['error', type(exc).__name__]
-                    log.append(obs)
-                    if obs not in ev['allowed']:
-                        chk.fail(f'Latest(release={configured or None}) answered {obs} but only {ev["allowed"]} were the '
-                                 f'newest generation since the last refresh', {'kind': 'latest', 'configured': configured,
-                                                                                'hist': hist, 'step': step})
-                        break
-                    if obs != ev['res']:
-                        chk.extra.setdefault('latest_drift', 0)
-                        chk.extra['latest_drift'] += 1
-                    # Explicit: constant whatever happens to the registry afterwards
-                    if explicit is None:
-                        explicit = (application.Explicit('prj', str(obs[0]), obs[1]), asset.Instance('prj', str(obs[0]), obs[1], reg))
-                    if explicit[0].select(reg, None, None) != explicit[1]:
-                        chk.fail('Explicit strategy returned another instance than configured',
-                                 {'kind': 'explicit', 'hist': hist, 'step': step})
-                        break
-            else:
-                chk.validated()
-                if n % 97 == 0:
-                    chk.sample({'latest_configured': configured, 'history': [(e['op'], e['r']) for e in hist], 'answers': log})
+        jobs.extend((configured, hist) for hist in behaviours)
+    # every history is independent (own registry directory, own selector and refresher thread): forked workers, each a
+    # copy of this interpreter with the virtual clock installed and no thread running yet
+    with concurrent.futures.ProcessPoolExecutor(12, mp_context=multiprocessing.get_context('fork')) as pool:
+        results = list(pool.map(_latest_job, jobs, chunksize=16))
+    for n, ((configured, hist), (fail, drift, log)) in enumerate(zip(jobs, results)):
+        if drift:
+            chk.extra['latest_drift'] = chk.extra.get('latest_drift', 0) + drift
+        if fail:
+            chk.fail(*fail)
+        else:
+            chk.validated()
+            if n % 97 == 0:
+                chk.sample({'latest_configured': configured, 'history': [(e['op'], e['r']) for e in hist], 'answers': log})
     # binding self-test: an answer outside `allowed` is detected by the comparison used above
     chk.selftest('latest_stale_answer_rejected', [1, 1] not in [[2, 1]])
-    chk.extra['latest_behaviours_replayed'] = total
+    chk.extra['latest_behaviours_replayed'] = len(jobs)
 
 
 def _exists(root, r, g):
